@@ -1,7 +1,7 @@
 (* DriverModel.v — the transcripts the correspondence check compares: for each family of driver case
    the model computes exactly the observables the C++ driver prints.  Executable; extracted. *)
 From Coq Require Import ZArith List Bool.
-From MdspanVerif Require Import MachInt ListAux Layouts Extents.
+From MdspanVerif Require Import MachInt ListAux Layouts Extents Convert.
 Import ListNotations.
 Local Open Scope Z_scope.
 
@@ -91,4 +91,73 @@ Definition x_cmp (ta : ity) (pata : pattern) (tb : ity) (patb : pattern) (va vb 
   match ext_from_all ta pata va, ext_from_all tb patb vb with
   | Ok a, Ok b => [TB (rmap (fun x => [x]) (ext_eq a b)); TB (rmap (fun x => [x]) (ext_neq a b))]
   | _, _ => [TZ UB]
+  end.
+
+(* ---- family V: conversions and equality ------------------------------------------------------------ *)
+Definition lkind_of_nat (n : nat) : lkind :=
+  match n with 0 => KLeft | 1 => KRight | 2 => KStride | 3 => KLPad | _ => KRPad end%nat.
+Definition opt_tb (r : res (option bool)) : tval :=
+  TB (rmap (fun o => match o with Some b => [b] | None => [] end) r).
+
+(* a mapping value as the drivers describe it *)
+Record mval := mkmval { mv_t : ity; mv_lay : nat; mv_pv : option Z; mv_pat : pattern; mv_ctor : nat;
+                        mv_vals : list Z; mv_ss : list Z; mv_dpv : Z }.
+Definition mval_build (v : mval) : res mapping :=
+  build_mapping (mv_t v) (mv_lay v) (mv_pv v) (mv_pat v) (mv_ctor v) (ext_values (mv_t v) (mv_pat v) (mv_vals v)) (mv_ss v) (mv_dpv v).
+Definition mval_type (v : mval) : mtype := mkmt (mv_t v) (mv_pat v) (lkind_of_nat (mv_lay v)) (mv_pv v).
+
+Definition points (es : list Z) (idxs : option (list (list Z))) : list (list Z) :=
+  match idxs with Some l => l | None => all_indices es end.
+
+Definition mapping_fields (t : ity) (m : mapping) : list tval :=
+  [ TL (Ok (exts m)); TZ (span_impl t m); TL (strides_list t m) ].
+
+Definition v_conv (sv : mval) (tgt : mtype) (idxs : option (list (list Z))) : list tval :=
+  match mval_build sv with
+  | UB => [TZ UB]
+  | Ok s =>
+    match conv_mapping (mv_t sv) s tgt with
+    | UB => [TZ UB]
+    | Ok m =>
+      let ts := mv_t sv in let tt := mt_t tgt in
+      let pts := points (exts s) idxs in
+      mapping_fields tt m ++
+      [ TL (seq_res (map (offset_impl tt m) pts));
+        TL (seq_res (map (offset_impl ts s) pts));
+        opt_tb (map_eq tt m ts s); opt_tb (map_neq_synth tt m ts s);
+        opt_tb (map_eq ts s tt m); opt_tb (map_neq_synth ts s tt m);
+        opt_tb (map_eq tt m tt m);
+        (if conv_exists m (mt_kind (mval_type sv))
+         then opt_tb (bind (conv_mapping tt m (mval_type sv)) (fun s2 => map_eq ts s2 ts s))
+         else TB (Ok [])) ]
+    end
+  end.
+
+Definition v_cmp (av bv : mval) (idxs : option (list (list Z))) : list tval :=
+  match mval_build av, mval_build bv with
+  | Ok a, Ok b =>
+    let ta := mv_t av in let tb := mv_t bv in
+    let same := exts_eq ta (exts a) tb (exts b) in
+    [ opt_tb (map_eq ta a tb b); opt_tb (map_neq_synth ta a tb b); TB (Ok [same]) ] ++
+    mapping_fields ta a ++ mapping_fields tb b ++
+    (if same then
+       let pts := points (exts a) idxs in
+       [ TL (seq_res (map (offset_impl ta a) pts)); TL (seq_res (map (offset_impl tb b) pts)) ]
+     else [ TL (Ok []); TL (Ok []) ])
+  | _, _ => [TZ UB]
+  end.
+
+(* ---- family K: debug-mode stride check ------------------------------------------------------------- *)
+Definition k_dbgconv (sv : mval) (tgt : mtype) : list tval :=
+  match mval_build sv with
+  | Ok (MStride es ss) =>
+      match conv_exts (mt_t tgt) (mt_pat tgt) es with
+      | Ok es' =>
+          let left := match mt_kind tgt with KLeft => true | _ => false end in
+          [ TB (rmap (fun b => [b]) (stride_check_cfg false left (mv_t sv) (mt_t tgt) es' ss));
+            TB (rmap (fun b => [b]) (stride_check_cfg true left (mv_t sv) (mt_t tgt) es' ss));
+            TL (Ok es') ]
+      | UB => [TZ UB]
+      end
+  | _ => [TZ UB]
   end.
